@@ -78,29 +78,28 @@ Fixpoint copy_ents (l : list mdent) : list mdent * option Z :=
     end
   end.
 
-(* sbdf_md_copy: returns the status and the destination afterwards.  On a failed element copy an
-   empty destination is left untouched and a non-empty one keeps what was appended so far. *)
+(* sbdf_md_copy: returns the status and the destination afterwards; all source entries are
+   appended, or (name clash, read-only, an entry that cannot be copied) none *)
 Definition md_copy (src dst : md) : Z * md :=
   if negb (mmod dst) then (SBDF_ERROR_METADATA_READONLY, dst) else
   if existsb (fun e => existsb (fun d => name_eqb (ename e) (ename d)) (ments dst)) (ments src)
   then (SBDF_ERROR_METADATA_ALREADY_EXISTS, dst) else
   match copy_ents (ments src) with
   | (new, None) => (SBDF_OK, {| ments := ments dst ++ new; mmod := mmod dst |})
-  | (new, Some st) =>
-    (st, match ments dst with [] => dst | _ => {| ments := ments dst ++ new; mmod := mmod dst |} end)
+  | (_, Some st) => (st, dst)
   end.
 
 Definition md_set_immutable (m : md) : md := {| ments := ments m; mmod := false |}.
 
 (* ---- columnmetadata.c ---- *)
 
-(* status and the metadata afterwards (the name stays added when the type cannot be) *)
+(* status and the metadata afterwards (all or nothing: the name is taken back when the type cannot be added) *)
 Definition cm_set_values (name : list Z) (ty : Z) (m : md) : Z * md :=
   match md_add_str SBDF_COLUMNMETADATA_NAME name None m with
   | Err st => (st, m)
   | Ok m1 =>
     match md_add SBDF_COLUMNMETADATA_DATATYPE (valuetype_to_object ty) None m1 with
-    | Err st => (st, m1)
+    | Err st => (st, m)
     | Ok m2 => (SBDF_OK, m2)
     end
   end.
